@@ -9,7 +9,7 @@
 (*                                                                                               *)
 (* The module has two layers:                                                                     *)
 (*  - database-layer actions with parameters (OpStart, WBegin, WStmt, WInterrupt, WRollback,      *)
-(*    WCommit, WCommitBusy, WAutoCommit, RBegin, RRead, REnd, CrashImage, OpEnd).  They only      *)
+(*    WEnd, WCommit, WCommitBusy, WAutoCommit, RBegin, RRead, REnd, CrashImage, OpEnd).  They only *)
 (*    maintain the state and the history the properties talk about.  Trace_TxnAtomic drives them  *)
 (*    with the events recorded from the real wallet;                                              *)
 (*  - a program layer (P...) for model checking: how a wallet write method is supposed to use the *)
@@ -39,7 +39,7 @@ Failed(res) == res \in {"err", "panic"}
 
 IdleW == [txn |-> FALSE, pend |-> << >>]
 IdleR(d) == [txn |-> FALSE, has |-> FALSE, snap |-> d, seen |-> {}, live |-> {d}, n |-> 0]
-IdleOp(d) == [st |-> "idle", mode |-> "plain", pre |-> d, commits |-> 0, faults |-> 0, fac |-> FALSE, res |-> "none",
+IdleOp(d) == [st |-> "idle", mode |-> "plain", pre |-> d, commits |-> 0, faults |-> 0, res |-> "none",
               post |-> d, wpost |-> d, auto |-> TRUE, clean |-> FALSE, crash |-> {}]
 
 DbInit(d, e) ==
@@ -57,7 +57,7 @@ DbInit(d, e) ==
 OpStart(mode) ==
     /\ op.st # "run"
     /\ mode = "retry" => op.st = "end" /\ Failed(op.res)
-    /\ op' = [st |-> "run", mode |-> mode, pre |-> db.data, commits |-> 0, faults |-> 0, fac |-> FALSE, res |-> "none",
+    /\ op' = [st |-> "run", mode |-> mode, pre |-> db.data, commits |-> 0, faults |-> 0, res |-> "none",
               post |-> db.data, wpost |-> db.data, auto |-> TRUE,
               clean |-> (mode = "retry" /\ op.post = op.pre /\ db.data = op.pre),  \* retried from the unchanged pre-state
               crash |-> {}]
@@ -75,14 +75,22 @@ WStmt(e) ==
     /\ UNCHANGED << db, r, op, exp >>
 
 \* A fault inside a statement: SQLite undoes the statement (statement journal), the call sees an
-\* error.  fac: the fault landed after the commit point (the last VM step of COMMIT).
+\* error.  (Faults are not injected into a BEGIN / COMMIT that has already taken effect: SQLite would
+\* only mis-report a statement that ran to completion.)
 WInterrupt ==
     /\ op.st = "run"
-    /\ op' = [op EXCEPT !.faults = @ + 1, !.fac = @ \/ op.commits > 0]
+    /\ op' = [op EXCEPT !.faults = @ + 1]
     /\ UNCHANGED << db, w, r, exp >>
 
 \* The open transaction is rolled back (WErrorReturn = this, then OpEnd with an error).
 WRollback ==
+    /\ w.txn
+    /\ w' = IdleW
+    /\ UNCHANGED << db, r, op, exp >>
+
+\* The transaction ends without a write commit and without a rollback: it wrote nothing (COMMIT of a
+\* read-only transaction; neither hook fires).  Nothing becomes durable.
+WEnd ==
     /\ w.txn
     /\ w' = IdleW
     /\ UNCHANGED << db, r, op, exp >>
@@ -156,15 +164,12 @@ Ended == op.st = "end"
 \* see, nothing visible that was not committed, and the writer's connection sees the same.
 Durable == Ended => op.post = db.data /\ op.wpost = op.post
 
-\* A failed call leaves the database exactly as it was -- or, when the fault landed after the commit
-\* point, exactly in the state of the uninterrupted run.
-Atomic == Ended /\ Failed(op.res) =>
-             \/ op.post = op.pre
-             \/ op.fac /\ exp.known /\ exp.res = "ok" /\ op.post = exp.data
+\* A failed call leaves the database exactly as it was.
+Atomic == Ended /\ Failed(op.res) => op.post = op.pre
 
 OneCommit ==
     /\ op.commits <= 1
-    /\ Ended /\ Failed(op.res) => op.commits = 0 \/ op.fac
+    /\ Ended /\ Failed(op.res) => op.commits = 0
     /\ Ended /\ op.res = "ok" /\ op.post # op.pre => op.commits = 1
 
 \* A call that returns Ok -- with or without an injected fault -- has exactly the effect of the
@@ -252,12 +257,6 @@ PCommit ==
        \/ ~CanCommit /\ WCommitBusy /\ Go("err")
        \/ pc.flt > 0 /\ WInterrupt /\ pc' = [pc EXCEPT !.flt = 0, !.at = "err"]     \* fault before the commit point
 
-\* the fault lands on the last VM step of COMMIT: the call reports an error, the commit took effect
-PFaultAfterCommit ==
-    /\ pc.at = "ret_ok" /\ pc.flt > 0
-    /\ WInterrupt
-    /\ pc' = [pc EXCEPT !.flt = 0, !.at = "ret_err"]
-
 PErr ==
     /\ pc.at = "err"
     /\ IF Mutant = "CommitOnErr" /\ CanCommit THEN WCommit(Apply(db.data, w.pend)) ELSE WRollback
@@ -290,7 +289,7 @@ Crash ==
     /\ pc' = [pc EXCEPT !.at = "crashed", !.rd = "done", !.cr = 1, !.flt = 0]
     /\ UNCHANGED << db, exp >>
 
-Next == \/ PStart \/ PEarly \/ PBegin \/ PStmt \/ PMidCommit \/ PFault \/ PCommit \/ PFaultAfterCommit
+Next == \/ PStart \/ PEarly \/ PBegin \/ PStmt \/ PMidCommit \/ PFault \/ PCommit
         \/ PErr \/ PRetOk \/ PRetErr \/ PRBegin \/ PRRead \/ PREnd \/ Crash
 
 Spec == Init /\ [][Next]_vars
